@@ -260,6 +260,20 @@ func (e *Eng) callModsG(fn *ssa.Function, c *ssa.CallCommon, m map[string]bool) 
 }
 
 func (e *Eng) callMods(fn *ssa.Function, c *ssa.CallCommon, m map[string]bool) {
+	// an `any` argument that boxes a pointer (decoders): what the pointer designates may be written
+	for _, a := range c.Args {
+		if mi, ok := a.(*ssa.MakeInterface); ok {
+			if derefType(mi.X.Type()) != nil {
+				if _, isAddr := mi.X.(*ssa.IndexAddr); isAddr {
+					e.addrMods(mi.X, m)
+				} else if _, isFA := mi.X.(*ssa.FieldAddr); isFA {
+					e.addrMods(mi.X, m)
+				} else {
+					e.addTypeReachable(mi.X.Type(), m)
+				}
+			}
+		}
+	}
 	if c.IsInvoke() {
 		name := calleeName(c)
 		if is := e.spec.Ifaces[name]; is != nil {
